@@ -288,7 +288,9 @@ def embed(xy, e):
     P = np.asarray(xy, dtype=float)
     n = len(P)
     c, s = math.cos(e["inplane"]), math.sin(e["inplane"])
-    P = P @ np.array([[c, s], [-s, c]]) + np.asarray(e["offset2"])
+    M2 = np.array([[c, s], [-s, c]])
+    off2 = np.asarray(e["offset2"], dtype=float)
+    P = P @ M2 + off2
     # cyclic shift; optionally steer a reflex corner into first position
     a = P - np.roll(P, 1, axis=0)
     b = np.roll(P, -1, axis=0) - P
@@ -303,11 +305,16 @@ def embed(xy, e):
         P = P[::-1].copy()
     V = np.c_[P, np.zeros(n)]
     nplus = np.array([0.0, 0.0, 1.0])
+    R, t, sc = np.eye(3), np.zeros(3), 1.0
     if e["place"] is not None:
         from gen.zoo import apply_placement
 
         V, R, t, sc = apply_placement(e["place"], V)
         nplus = R @ nplus
+
+    def to3d(pts2):
+        q = np.asarray(pts2, dtype=float) @ M2 + off2
+        return sc * (np.c_[q, np.zeros(len(q))] @ R.T) + t
     kind = e["normal"]
     if kind == "none":
         arg = None
@@ -319,5 +326,5 @@ def embed(xy, e):
         arg = [float(2.5 * x) for x in nplus]
     else:
         arg = np.array(nplus, dtype=float) * 1.0
-    return {"verts": V, "normal_arg": arg, "nplus": nplus, "cw": bool(e["cw"]), "first_corner_reflex":
+    return {"verts": V, "normal_arg": arg, "nplus": nplus, "cw": bool(e["cw"]), "to3d": to3d, "scale": sc, "first_corner_reflex":
             bool((turn[(shift + 1) % n] < 0) if not e["cw"] else (turn[(shift - 1 - 1) % n] < 0))}
